@@ -31,6 +31,7 @@ def main(argv=None):
                     choices=['quick', 'thorough'])
     ap.add_argument('--replay')
     ap.add_argument('--selftest', action='store_true')
+    ap.add_argument('--worker-stage', action='store_true')
     args = ap.parse_args(argv)
 
     try:
@@ -44,13 +45,25 @@ def main(argv=None):
             prop = v['property']
             common.pin_environment()
             mod = importlib.import_module(f'mc.props.{prop}')
-            vs = mod.replay(v)
-            if not vs and isinstance(v.get('case'), dict) and v['case'].get('worker') \
-                    and hasattr(mod, 'run_shard'):
-                # process-global library state may reach further back than the recorded recent
-                # predecessors: re-execute the whole history of the worker process
+            if v.get('schedule') == 'serial-whole-check':
+                ok, out = common.serial_confirm(prop, v.get('tier', 'quick'))
+                print(out[-3000:])
+                return common.EXIT_VIOLATION if ok else common.EXIT_OK
+            if args.worker_stage:
                 from mc import e1
                 vs = e1.replay_worker(mod, v)
+            else:
+                vs = mod.replay(v)
+                if not vs and isinstance(v.get('case'), dict) and v['case'].get('worker') \
+                        and hasattr(mod, 'run_shard'):
+                    # process-global library state may reach further back than the recorded
+                    # recent predecessors: re-execute the whole history of the worker process -
+                    # in a process of its own, because the attempt above has itself left
+                    # (correct) entries in whatever process-global state the library keeps
+                    import subprocess
+                    r = subprocess.run([sys.executable, os.path.abspath(__file__), '--replay',
+                                        args.replay, '--worker-stage'], timeout=3600)
+                    return r.returncode
             same = [x for x in vs if x['clause'] == v['clause']] or vs
             if same:
                 x = same[0]
